@@ -515,6 +515,10 @@ func (r *run) quiesce() bool {
 		// nothing was released in this round: is everybody positively at rest?
 		dlRest := (r.e.find("dl") != nil && dlPolls >= 3) || g == nil || g.isExited()
 		rdRest := r.e.find("rd") != nil && rdTicks >= 2
+		if r.n.genPending(gateWait) {
+			time.Sleep(200 * time.Microsecond)
+			continue
+		}
 		if dlRest && rdRest && r.e.find("drv") == nil && (g == nil || len(g.chA) == 0) {
 			// a tracked block that is not canonical must lead to a notification; a detection that collides with an earlier
 			// one of the same second is retried by the detector on a later tick: give it that second
